@@ -436,12 +436,16 @@ func newErrMissingTypes(c containerStore, k key) errMissingTypes {
 
 	if k.t.Kind() == reflect.Array {
 		// Maybe the user meant an array of pointers while we have the array of elements
-		suggestions = append(suggestions, reflect.ArrayOf(k.t.Len(), reflect.PointerTo(k.t.Elem())))
+		if t, ok := arrayOf(k.t.Len(), reflect.PointerTo(k.t.Elem())); ok {
+			suggestions = append(suggestions, t)
+		}
 
 		// Maybe the user meant an array of elements while we have the array of pointers
 		arrayElement := k.t.Elem()
 		if arrayElement.Kind() == reflect.Ptr {
-			suggestions = append(suggestions, reflect.ArrayOf(k.t.Len(), arrayElement.Elem()))
+			if t, ok := arrayOf(k.t.Len(), arrayElement.Elem()); ok {
+				suggestions = append(suggestions, t)
+			}
 		}
 	}
 
@@ -477,6 +481,15 @@ func newErrMissingTypes(c containerStore, k key) errMissingTypes {
 	}
 
 	return errMissingTypes{mt}
+}
+
+// arrayOf is reflect.ArrayOf, except that it reports false instead of
+// panicking when an array of that many elements is too large to exist.
+func arrayOf(length int, elem reflect.Type) (reflect.Type, bool) {
+	if size := elem.Size(); size > 0 && uintptr(length) > ^uintptr(0)/size {
+		return nil, false
+	}
+	return reflect.ArrayOf(length, elem), true
 }
 
 func (e errMissingTypes) Error() string { return fmt.Sprint(e) }
